@@ -12,7 +12,7 @@ from .. import runner, explore, coll, gen
 
 RULE = ('mosromgr.cli.main(argv) in-process with captured stdout/stderr. detect / inspect: every sequence of length <= L over '
         'a pool {roCreate, a completed running order, roStoryAppend, compact roReplace, roDelete, roElementAction with an '
-        'unrecognised operation, non-XML file, unknown XML, missing path, directory}; merge: every subset of a 5-file pool '
+        'unrecognised operation, non-XML file, unknown XML, missing path, directory}, plus one canonical document of each of the 25 classes (compact and pretty) before / after another file; merge: every subset of a 5-file pool '
         '{roCreate, roStoryAppend, failing roStoryReplace, roStoryMove, roDelete} in two supply orders x {-i} x {-n} x '
         '{-o file, stdout}, plus a missing file in the list, plus no -f at all for the three commands. Oracle: per listed '
         'file, in order, "<name>: <Class>[ (completed)]" on stdout (class from MosFile.from_file run by the harness) or the '
@@ -54,6 +54,11 @@ def make_pool(ns, d):
     w('m-move.mos.xml', g.msg_story_move('A', gen.BLANK, msg_id=2050))
     w('ea-itemmove.mos.xml', g.msg_ea('MOVE', 'A', 'a', sources=[g.id_tag('itemID', 'c')], msg_id=2060))
     w('storysend.mos.xml', g.msg_story_send('A', msg_id=2070))
+    # one canonical document per concrete class, compact and pretty-printed (inspect must not abort on any)
+    from .c08 import canonical_docs
+    for cls, text in canonical_docs().items():
+        w(f'canon-{cls}.mos.xml', text)
+        w(f'canonp-{cls}.mos.xml', g.prettify(text))
     return files
 
 
@@ -204,6 +209,12 @@ def items_for(tier):
             core = ['ro.mos.xml', 'completed.mos.xml', 'roreplace-compact.mos.xml', 'not-xml.mos.xml', 'missing.mos.xml', 'adir.mos.xml']
             for names in itertools.product(core, repeat=3):
                 items.append((cmd, names))
+    from .c08 import canonical_docs
+    for cls in canonical_docs():
+        for pre in ('canon-', 'canonp-'):
+            for cmd in ('detect', 'inspect'):
+                items.append((cmd, (f'{pre}{cls}.mos.xml', 'ro.mos.xml')))
+                items.append((cmd, ('not-xml.mos.xml', f'{pre}{cls}.mos.xml')))
     for n in range(0, len(MERGE_POOL) + 1):
         for sub in itertools.combinations(MERGE_POOL, n):
             for order in (sub, tuple(reversed(sub))):
